@@ -116,6 +116,24 @@ def Graph.timeRespectingPaths (g : Graph) (u : Node) (v : Option Node) (start st
       let kept := raw.filter (fun pt => pingPongOk pt && !pt.isEmpty)
       .ok (groupPaths (kept.foldl insertNew []))
 
+/-- `time_respecting_paths(G, u, v, start, end, sample)` with `sample = num/den < 1`:
+    `to_sample = int(len(pairs) * sample)` and `numpy.random.choice(len(pairs), size=to_sample, replace=False)`
+    (= the first `to_sample` entries of a random permutation of the indices; the permutation is the parameter
+    `perm` restricted to the indices that exist); the selected pairs are then enumerated exactly as with `sample = 1`. -/
+def Graph.timeRespectingPathsSample (g : Graph) (u : Node) (v : Option Node) (start stop : Option Int)
+    (num den : Nat) (perm : List Nat) : Except Err (List ((Node × Node) × List TPath)) :=
+  if !g.hasNode u start then .ok []
+  else
+    match g.temporalDag u v start stop with
+    | .error e => .error e
+    | .ok d =>
+      let pairs := d.sources.flatMap (fun s => d.targets.map (fun t => (s, t)))
+      let toSample := pairs.length * num / den
+      let chosen := ((perm.filter (fun i => decide (i < pairs.length))).take toSample).filterMap (fun i => pairs[i]?)
+      let raw := chosen.flatMap (fun (s, t) => (simplePaths d s t).map hopsOf)
+      let kept := raw.filter (fun pt => pingPongOk pt && !pt.isEmpty)
+      .ok (groupPaths (kept.foldl insertNew []))
+
 /-- `all_time_respecting_paths(G, start, end, min_t=m)` -/
 def Graph.allTimeRespectingPaths (g : Graph) (start stop minT : Option Int) :
     Except Err (List ((Node × Node) × List TPath)) :=
